@@ -5,6 +5,8 @@ mod arena;
 mod count;
 mod hist;
 mod interpose;
+mod sig;
+mod sigfam;
 mod targets;
 mod util;
 
@@ -14,6 +16,7 @@ fn main() {
         Some("hist") => hist::main(&args[2..]),
         Some("count") => count::main(&args[2..]),
         Some("abi") => abi::main(&args[2..]),
+        Some("sig") => sig::main(&args[2..]),
         _ => { eprintln!("usage: real <hist> ..."); std::process::exit(2) }
     }
 }
